@@ -26,7 +26,7 @@ type recEvent struct {
 	H    int          `json:"h,omitempty"`
 	Snap *snapContent `json:"snap,omitempty"`
 	Ok   *bool        `json:"ok,omitempty"`
-	T0   int          `json:"t0"` // monotonic ms since the start of the case (0 where timing is not observed)
+	T0   int          `json:"t0"` // monotonic microseconds since the start of the case (0 where timing is not observed)
 	T1   int          `json:"t1"`
 	// harness-only (ignored by the trace specification)
 	Path   int            `json:"path,omitempty"`
